@@ -127,7 +127,7 @@ package server
 //@ assigns p.State, p.StopMessage, closed(p.pauseChannel)
 //@ ensures[C07,C08] state_set: p.State == newState && p.StopMessage == message
 //@ ensures[C07,C08] releases_waiters: old(p.State) == PauseStatePaused && newState != PauseStatePaused ==> closed(p.pauseChannel)
-//@ ensures[C07] only_then: !(old(p.State) == PauseStatePaused && newState != PauseStatePaused) ==> closed(p.pauseChannel) == old(closed(p.pauseChannel))
+//@ ensures[C07,C08] only_then: !(old(p.State) == PauseStatePaused && newState != PauseStatePaused) ==> closed(p.pauseChannel) == old(closed(p.pauseChannel))
 //@ ensures[C07,C18] lock_free: !held(p.lock)
 
 //@ func (*server.PauseController).Stop
@@ -135,35 +135,35 @@ package server
 //@ emits SetStopped(p, message)
 //@ assigns p.State, p.StopMessage, closed(p.pauseChannel)
 //@ ensures[C08] stopped: err == nil && p.State == PauseStateStopped && p.StopMessage == message
-//@ ensures[C07] releases_waiters: old(p.State) == PauseStatePaused ==> closed(p.pauseChannel)
+//@ ensures[C07,C08] releases_waiters: old(p.State) == PauseStatePaused ==> closed(p.pauseChannel)
 
 //@ func (*server.PauseController).Resume
 //@ may_emit Close
 //@ assigns p.State, p.StopMessage, closed(p.pauseChannel)
 //@ ensures[C07,C08] running: err == nil && p.State == PauseStateRunning && p.StopMessage == ""
-//@ ensures[C07] releases_waiters: old(p.State) == PauseStatePaused ==> closed(p.pauseChannel)
+//@ ensures[C07,C08] releases_waiters: old(p.State) == PauseStatePaused ==> closed(p.pauseChannel)
 
 //@ func (*server.PauseController).Pause
 //@ emits SetPaused(p, failAfter)
 //@ assigns p.State, p.StopMessage, p.FailAfter, p.pauseChannel
-//@ ensures[C07] paused: err == nil && p.State == PauseStatePaused && p.StopMessage == "" && p.FailAfter == failAfter
+//@ ensures[C07,C03] paused: err == nil && p.State == PauseStatePaused && p.StopMessage == "" && p.FailAfter == failAfter
 //@ ensures[C07,C03] new_channel_on_change: old(p.State) != PauseStatePaused ==> fresh(p.pauseChannel) && !closed(p.pauseChannel)
 //@ ensures[C07] keeps_channel: old(p.State) == PauseStatePaused ==> p.pauseChannel == old(p.pauseChannel)
 //@ ensures[C07,C18] lock_free: !held(p.lock)
 
 //@ func (*server.PauseController).getWaitState
 //@ assigns nothing
-//@ ensures[C07] snapshot: result0 == p.State && (p.State == PauseStatePaused ==> result1 == "" && result2 == p.pauseChannel && fresh(result3) && fireAt(result3) == now + max(p.FailAfter, 0))
+//@ ensures[C07,C08] snapshot: result0 == p.State && (p.State == PauseStatePaused ==> result1 == "" && result2 == p.pauseChannel && fresh(result3) && fireAt(result3) == now + max(p.FailAfter, 0))
 //@ ensures[C07,C08] not_paused: p.State != PauseStatePaused ==> result1 == p.StopMessage && result2 == nil && result3 == nil
-//@ ensures[C07] valid_state: result0 == PauseStateRunning || result0 == PauseStatePaused || result0 == PauseStateStopped
+//@ ensures[C07,C08] valid_state: result0 == PauseStateRunning || result0 == PauseStatePaused || result0 == PauseStateStopped
 //@ ensures[C07] no_time: now == old(now)
 
 //@ func (*server.PauseController).Wait
 //@ attr blocks
 //@ assigns nothing
 //@ emits Gate(p, old(p.State), result0, result1)
-//@ ensures[C07] valid_action: result0 == PauseWaitActionProceed || result0 == PauseWaitActionTimedOut || result0 == PauseWaitActionStopped
-//@ ensures[C07] running: old(p.State) == PauseStateRunning ==> result0 == PauseWaitActionProceed && result1 == "" && now == old(now)
+//@ ensures[C07,C08] valid_action: result0 == PauseWaitActionProceed || result0 == PauseWaitActionTimedOut || result0 == PauseWaitActionStopped
+//@ ensures[C07,C08,C02] running: old(p.State) == PauseStateRunning ==> result0 == PauseWaitActionProceed && result1 == "" && now == old(now)
 //@ ensures[C07,C08] stopped: old(p.State) == PauseStateStopped ==> result0 == PauseWaitActionStopped && result1 == old(p.StopMessage) && now == old(now)
 //@ ensures[C07] held_at_most_max_pause: now <= old(now) + max(old(p.FailAfter), 0)
 //@ ensures[C07] timed_out_only_at_limit: old(p.State) == PauseStatePaused && result0 == PauseWaitActionTimedOut ==> now >= old(now) + max(old(p.FailAfter), 0)
@@ -193,15 +193,15 @@ package server
 //@ assigns errResp(r).StatusCode, errResp(r).TemplateArguments, @writerFrame
 //@ ensures[C07,C08] health_check: old(s.pauseController.State) != PauseStateRunning && old(r.Method) == "GET" && old(r.URL.Path) == old(s.targetOptions.HealthCheckConfig.Path) ==> result && emitted(WriteHeader(w, 200)) && none(ErrResp) && none(Gate) && now == old(now)
 //@ ensures[C07,C08] only_get_on_the_health_path_is_exempt: !(old(r.Method) == "GET" && old(r.URL.Path) == old(s.targetOptions.HealthCheckConfig.Path)) ==> count(Gate(_, _, _, _)) == 1 && none(WriteHeader)
-//@ ensures[C07] running: emitted(Gate(_, PauseStateRunning, _, _)) ==> !result
+//@ ensures[C07,C08,C02] running: emitted(Gate(_, PauseStateRunning, _, _)) ==> !result
 //@ ensures[C08] stopped: emitted(Gate(_, PauseStateStopped, _, _)) ==> result && emitted(ErrResp(w, 503, _))
 //@ ensures[C08] stop_message: old(hasErrResp(r)) && emitted(ErrResp(w, 503, _)) ==> emitted(Gate(_, _, PauseWaitActionStopped, unbox(errResp(r).TemplateArguments, `struct{Message string}`).Message))
-//@ ensures[C07] proceeds_silently: !result ==> none(ErrResp) && none(WriteHeader) && emitted(Gate(_, _, PauseWaitActionProceed, _))
+//@ ensures[C07,C02] proceeds_silently: !result ==> none(ErrResp) && none(WriteHeader) && emitted(Gate(_, _, PauseWaitActionProceed, _))
 //@ ensures[C07,C08] answers_once: result ==> count(ErrResp(_, _, _)) + count(WriteHeader(_, _)) == 1
 //@ ensures[C07] timeout_is_504: emitted(ErrResp(w, 504, _)) <==> emitted(Gate(_, _, PauseWaitActionTimedOut, _))
 //@ ensures[C07,C08] stop_is_503: emitted(ErrResp(w, 503, _)) <==> emitted(Gate(_, _, PauseWaitActionStopped, _))
 //@ ensures[C07,C08] never_forwards: none(Forward) && none(LBServe) && only(ErrResp, WriteHeader, Gate, Lock, Unlock)
-//@ ensures[C07] codes: none(ErrResp(_, 502, _)) && none(ErrResp(_, 404, _)) && count(Gate(_, _, _, _)) <= 1
+//@ ensures[C07,C08] codes: none(ErrResp(_, 502, _)) && none(ErrResp(_, 404, _)) && count(Gate(_, _, _, _)) <= 1
 
 //@ func (*server.Target).StartRequest
 //@ requires req != nil
@@ -215,7 +215,7 @@ package server
 //@ requires req != nil
 //@ assigns lb.index, mapsof(Target.inflight)
 //@ ensures[C09,C02] no_healthy_target: len(old(lb.healthy)) == 0 ==> err == ErrorNoHealthyTargets && result0 == nil && lb.index == old(lb.index)
-//@ ensures[C09] rotation: len(old(lb.healthy)) > 0 ==> lb.index == (old(lb.index) + 1) % len(old(lb.healthy)) && result0 == old(lb.healthy)[lb.index]
+//@ ensures[C09,C01,C02] rotation: len(old(lb.healthy)) > 0 ==> lb.index == (old(lb.index) + 1) % len(old(lb.healthy)) && result0 == old(lb.healthy)[lb.index]
 //@ ensures[C02,C03] only_draining_refuses: len(old(lb.healthy)) > 0 && err != nil ==> err == ErrorDraining
 //@ ensures[C09,C15] request_registered: err == nil ==> targetWF(result0) && result1 != nil && haskey(result0.inflight, result1) && origin(result1) == origin(req) && (ctxWF(req) ==> ctxWF(result1))
 //@ ensures[C18] lock_free: !held(lb.lock)
@@ -279,9 +279,9 @@ package server
 //@ ensures[C01] first_success_promotes: old(t.state) == TargetStateAdding && success ==> t.state == TargetStateHealthy && closed(t.becameHealthy)
 //@ ensures[C01] failure_never_promotes: !success ==> t.state != TargetStateHealthy && closed(t.becameHealthy) == old(closed(t.becameHealthy)) && everHealthy(t) == old(everHealthy(t))
 //@ ensures[C01,C17] adding_stays_adding_on_failure: old(t.state) == TargetStateAdding && !success ==> t.state == TargetStateAdding
-//@ ensures[C09] failure_demotes: old(t.state) == TargetStateHealthy && !success ==> t.state == TargetStateUnhealthy
+//@ ensures[C09,C15] failure_demotes: old(t.state) == TargetStateHealthy && !success ==> t.state == TargetStateUnhealthy
 //@ ensures[C09] success_recovers: old(t.state) == TargetStateUnhealthy && success ==> t.state == TargetStateHealthy
-//@ ensures[C09] notifies_on_change: t.state != old(t.state) && !isnil(t.stateConsumer) ==> emitted(StateChanged(t.stateConsumer, t))
+//@ ensures[C09,C01,C02] notifies_on_change: t.state != old(t.state) && !isnil(t.stateConsumer) ==> emitted(StateChanged(t.stateConsumer, t))
 //@ ensures[C01,C09] closes_once: count(Close(_)) <= 1 && (emitted(Close(_)) ==> old(t.state) == TargetStateAdding && success)
 //@ ensures[C02] rotation_ready_before_signal: !isnil(old(t.stateConsumer)) ==> first(StateChanged(_, _), Close(_))
 //@ ensures[C03,C09] probe_does_not_end_drain: old(t.state) == TargetStateDraining && success ==> t.state == TargetStateDraining
@@ -308,8 +308,8 @@ package server
 
 //@ func (*server.LoadBalancer).updateHealthyTargets
 //@ assigns lb.healthy
-//@ ensures[C09] only_healthy_targets: forall j int :: 0 <= j && j < len(lb.healthy) ==> lb.healthy[j].state == TargetStateHealthy && (exists i int :: 0 <= i && i < len(lb.all) && lb.healthy[j] == lb.all[i])
-//@ ensures[C09] every_healthy_target: forall i int :: 0 <= i && i < len(lb.all) && lb.all[i].state == TargetStateHealthy ==> (exists j int :: 0 <= j && j < len(lb.healthy) && lb.healthy[j] == lb.all[i])
+//@ ensures[C09,C01,C02] only_healthy_targets: forall j int :: 0 <= j && j < len(lb.healthy) ==> lb.healthy[j].state == TargetStateHealthy && (exists i int :: 0 <= i && i < len(lb.all) && lb.healthy[j] == lb.all[i])
+//@ ensures[C09,C01,C02] every_healthy_target: forall i int :: 0 <= i && i < len(lb.all) && lb.all[i].state == TargetStateHealthy ==> (exists j int :: 0 <= j && j < len(lb.healthy) && lb.healthy[j] == lb.all[i])
 //@ ensures[C09] no_more_than_all: len(lb.healthy) <= len(lb.all)
 //@ ensures[C18] lock_free: !held(lb.lock)
 //@ loop 1 invariant[C09] healthy_only: forall j int :: 0 <= j && j < len(lb.healthy) ==> lb.healthy[j].state == TargetStateHealthy
@@ -400,13 +400,13 @@ package server
 //@ attr blocks
 //@ assigns t.state, everHealthy(t), cancelled, closed
 //@ ensures[C03,C17] bounded_by_drain_timeout: now <= old(now) + max(timeout, 0)
-//@ ensures[C03] every_request_of_the_snapshot_cancelled: old(t.state) != TargetStateDraining ==> forall k `*net/http.Request` :: old(haskey(t.inflight, k)) ==> cancelled(old(t.inflight[k]).cancel)
+//@ ensures[C03,C02,C07,C08,C17] every_request_of_the_snapshot_cancelled: old(t.state) != TargetStateDraining ==> forall k `*net/http.Request` :: old(haskey(t.inflight, k)) ==> cancelled(old(t.inflight[k]).cancel)
 //@ ensures[C03,C02] cut_off_only_at_deadline: old(t.state) != TargetStateDraining ==> (forall k `*net/http.Request` :: old(haskey(t.inflight, k)) ==> reqDone(k)) || now >= old(now) + max(timeout, 0)
 //@ ensures[C03,C07,C08] state_restored_when_the_drain_ends: t.state != TargetStateDraining || now == old(now)
-//@ ensures[C03] overlapping_drain_returns_at_once: old(t.state) == TargetStateDraining ==> now == old(now)
+//@ ensures[C03,C17] overlapping_drain_returns_at_once: old(t.state) == TargetStateDraining ==> now == old(now)
 //@ ensures[C18] lock_free: !held(t.inflightLock)
 //@ emits DrainTarget(t, timeout)
-//@ loop 1 invariant[C03] upgraded_connections_first: forall k `*net/http.Request` :: haskey(toCancel, k) && !toCancel[k].hijacked ==> sameCancelled(toCancel[k].cancel)
+//@ loop 1 invariant[C03,C07,C08] upgraded_connections_first: forall k `*net/http.Request` :: haskey(toCancel, k) && !toCancel[k].hijacked ==> sameCancelled(toCancel[k].cancel)
 //@ loop 1 invariant no_waiting_yet: now == old(now) && fireAt(deadline) == old(now) + max(timeout, 0) && toCancel != nil
 //@ loop 1 invariant snapshot: forall k `*net/http.Request` :: haskey(toCancel, k) == old(haskey(t.inflight, k)) && (haskey(toCancel, k) ==> toCancel[k] == old(t.inflight[k]) && toCancel[k] != nil && toCancel[k].cancel != nil)
 //@ loop 2 invariant[C03,C17] one_shared_deadline: now <= max(old(now), fireAt(deadline)) && fireAt(deadline) == old(now) + max(timeout, 0) && toCancel != nil
@@ -548,7 +548,7 @@ package server
 //@ ensures[C12,C11] only_the_temporary_file_is_ever_removed: all(FileRemove, $0 == fileName(ref(f)))
 //@ ensures[C12,C11] success_means_replaced: result == nil ==> count(FsRename(_, _, _)) == 1 && emitted(FsRename(_, _, true)) && count(ListServices(_)) == 1
 //@ ensures[C12,C11] failure_leaves_the_old_file: result != nil ==> none(FsRename(_, _, true))
-//@ ensures[C12] snapshots_are_serialized: first(Lock(r, lockid("server.Router.snapshotLock")), ListServices(_)) && !held(r.snapshotLock) && (result == nil ==> first(FsRename(_, _, _), Unlock(r, lockid("server.Router.snapshotLock"))))
+//@ ensures[C12,C11,C18] snapshots_are_serialized: first(Lock(r, lockid("server.Router.snapshotLock")), ListServices(_)) && !held(r.snapshotLock) && (result == nil ==> first(FsRename(_, _, _), Unlock(r, lockid("server.Router.snapshotLock"))))
 //@ ensures[C17] no_timed_wait: now == old(now)
 //@ emits Snapshot(r)
 
@@ -618,7 +618,7 @@ package server
 //@ may_emit LoadCert, ParseTemplates, ErrorPages
 //@ ensures[C06] validation_failure_returns_error: err != nil ==> none(NewLB) && none(NewHealthCheck)
 //@ ensures[C06,C11] built: err == nil ==> result0 != nil && fresh(result0) && result0.name == name && result0.active == nil && result0.rollout == nil && result0.rolloutController == nil && result0.pauseController != nil && fresh(result0.pauseController) && pauseInv(result0.pauseController) && result0.pauseController.State == PauseStateRunning && result0.targetOptions == targetOptions
-//@ ensures[C04] normalised_bindings: err == nil ==> len(result0.options.Hosts) > 0 && len(result0.options.PathPrefixes) > 0
+//@ ensures[C04,C05] normalised_bindings: err == nil ==> len(result0.options.Hosts) > 0 && len(result0.options.PathPrefixes) > 0
 //@ ensures[C16] cert_manager_matches_tls: err == nil ==> (!isnil(result0.certManager)) == result0.options.TLSEnabled && !isnil(result0.middleware) && result0.options.TLSEnabled == options.TLSEnabled && result0.options.TLSRedirect == options.TLSRedirect && result0.options.StripPrefix == options.StripPrefix
 
 //@ func (*server.Service).CopyWithOptions
@@ -631,7 +631,7 @@ package server
 //@ requires s.active != nil
 //@ assigns Target.healthcheck, cancelled, closed
 //@ may_emit StopProbes, Cancel, Dispose
-//@ ensures[C17] both_slots_stopped: (forall i int :: 0 <= i && i < len(s.active.all) ==> probesStopped(s.active.all[i])) && (s.rollout != nil ==> forall i int :: 0 <= i && i < len(s.rollout.all) ==> probesStopped(s.rollout.all[i]))
+//@ ensures[C17,C06,C03] both_slots_stopped: (forall i int :: 0 <= i && i < len(s.active.all) ==> probesStopped(s.active.all[i])) && (s.rollout != nil ==> forall i int :: 0 <= i && i < len(s.rollout.all) ==> probesStopped(s.rollout.all[i]))
 //@ ensures[C17] no_timed_wait: now == old(now)
 //@ emits DisposeService(s)
 
@@ -641,8 +641,8 @@ package server
 //@ attr blocks
 //@ assigns *
 //@ may_emit *
-//@ ensures[C08] gate_closed_before_drain: err == nil && first(SetStopped(_, _), DrainService(_, _)) && emitted(SetStopped(s.pauseController, message)) && emitted(DrainService(s, drainTimeout))
-//@ ensures[C17] bounded_by_drain_timeout: now <= old(now) + max(drainTimeout, 0)
+//@ ensures[C08,C03] gate_closed_before_drain: err == nil && first(SetStopped(_, _), DrainService(_, _)) && emitted(SetStopped(s.pauseController, message)) && emitted(DrainService(s, drainTimeout))
+//@ ensures[C17,C03,C08] bounded_by_drain_timeout: now <= old(now) + max(drainTimeout, 0)
 
 //@ func (*server.Service).Pause
 //@ emits PauseSvc(s, drainTimeout, pauseTimeout)
@@ -651,7 +651,7 @@ package server
 //@ assigns *
 //@ may_emit *
 //@ ensures[C07,C03] gate_closed_before_drain: err == nil && first(SetPaused(_, _), DrainService(_, _)) && emitted(SetPaused(s.pauseController, pauseTimeout)) && emitted(DrainService(s, drainTimeout))
-//@ ensures[C17] bounded_by_drain_timeout: now <= old(now) + max(drainTimeout, 0)
+//@ ensures[C17,C03,C07] bounded_by_drain_timeout: now <= old(now) + max(drainTimeout, 0)
 
 //@ func (*server.Service).Resume
 //@ emits ResumeSvc(s)
@@ -663,11 +663,11 @@ package server
 
 //@ func server.NormalizeHosts
 //@ assigns nothing
-//@ ensures[C04] never_empty: len(result) > 0 && (len(hosts) > 0 ==> result == hosts) && (len(hosts) == 0 ==> len(result) == 1 && result[0] == "" && fresh(ref(result)))
+//@ ensures[C04,C05] never_empty: len(result) > 0 && (len(hosts) > 0 ==> result == hosts) && (len(hosts) == 0 ==> len(result) == 1 && result[0] == "" && fresh(ref(result)))
 
 //@ func server.NormalizePathPrefixes
 //@ assigns nothing
-//@ ensures[C04] never_empty: len(result) > 0 && (len(pathPrefixes) == 0 ==> len(result) == 1 && result[0] == "/") && (len(pathPrefixes) > 0 ==> len(result) == len(pathPrefixes))
+//@ ensures[C04,C05] never_empty: len(result) > 0 && (len(pathPrefixes) == 0 ==> len(result) == 1 && result[0] == "/") && (len(pathPrefixes) > 0 ==> len(result) == len(pathPrefixes))
 //@ ensures[C04,C05] normalised: forall i int :: 0 <= i && i < len(result) ==> normPrefix(result[i])
 //@ ensures fresh_list: fresh(ref(result))
 //@ loop 1 invariant[C04] normalised_so_far: len(result) == idx && idx <= len(coll) && coll == pathPrefixes && fresh(ref(result)) && forall i int :: 0 <= i && i < len(result) ==> normPrefix(result[i])
@@ -716,13 +716,13 @@ package server
 //@ func (*server.Buffer).writeToMemory
 //@ assigns b.memoryBuffer.contents, b.memBytesWritten
 //@ requires 0 <= b.memBytesWritten && b.memBytesWritten + len(p) <= 4611686018427387904
-//@ ensures[C14] all_in_memory: result0 == len(p) && err == nil && b.memoryBuffer.contents == old(b.memoryBuffer.contents) + bytes(p) && b.memBytesWritten == old(b.memBytesWritten) + len(p)
+//@ ensures[C14,C13] all_in_memory: result0 == len(p) && err == nil && b.memoryBuffer.contents == old(b.memoryBuffer.contents) + bytes(p) && b.memBytesWritten == old(b.memBytesWritten) + len(p)
 
 //@ func (*server.Buffer).writeToDisk
 //@ requires b.diskBuffer != nil && 0 <= b.diskBytesWritten && b.diskBytesWritten + len(p) <= 4611686018427387904
 //@ assigns b.diskBuffer.content, b.diskBytesWritten
 //@ may_emit FileWrite
-//@ ensures[C14] spilled: 0 <= result0 && result0 <= len(p) && (result0 < len(p) ==> err != nil) && b.diskBuffer.content == old(b.diskBuffer.content) + substr(bytes(p), 0, result0) && b.diskBytesWritten == old(b.diskBytesWritten) + result0
+//@ ensures[C14,C13] spilled: 0 <= result0 && result0 <= len(p) && (result0 < len(p) ==> err != nil) && b.diskBuffer.content == old(b.diskBuffer.content) + substr(bytes(p), 0, result0) && b.diskBytesWritten == old(b.diskBytesWritten) + result0
 
 //@ func (*server.Buffer).createSpill
 //@ requires b.diskBuffer == nil
@@ -738,9 +738,9 @@ package server
 //@ ensures[C14,C13] invariant_kept: bufInv(b)
 //@ ensures[C14] write_after_read_refused: old(b.reader) != nil ==> result0 == 0 && err == ErrWriteAfterRead && written(b) == old(written(b)) && b.overflowed == old(b.overflowed)
 //@ ensures[C14] one_byte_over_the_limit_refused: isnil(old(b.reader)) && b.maxBytes > 0 && old(b.memBytesWritten) + old(b.diskBytesWritten) + len(p) > b.maxBytes ==> result0 == 0 && err == ErrMaximumSizeExceeded && b.overflowed && written(b) == old(written(b))
-//@ ensures[C14] up_to_the_limit_accepted: isnil(old(b.reader)) && !(b.maxBytes > 0 && old(b.memBytesWritten) + old(b.diskBytesWritten) + len(p) > b.maxBytes) ==> 0 <= result0 && result0 <= len(p) && (err == nil ==> result0 == len(p)) && written(b) == old(written(b)) + substr(bytes(p), 0, result0) && b.overflowed == old(b.overflowed)
+//@ ensures[C14,C13] up_to_the_limit_accepted: isnil(old(b.reader)) && !(b.maxBytes > 0 && old(b.memBytesWritten) + old(b.diskBytesWritten) + len(p) > b.maxBytes) ==> 0 <= result0 && result0 <= len(p) && (err == nil ==> result0 == len(p)) && written(b) == old(written(b)) + substr(bytes(p), 0, result0) && b.overflowed == old(b.overflowed)
 //@ ensures[C14] overflow_flag_only_with_size_error: b.overflowed != old(b.overflowed) ==> err == ErrMaximumSizeExceeded && result0 == 0
-//@ ensures[C14] at_most_buffer_memory_in_memory: len(b.memoryBuffer.contents) <= b.maxMemBytes
+//@ ensures[C14,C13] at_most_buffer_memory_in_memory: len(b.memoryBuffer.contents) <= b.maxMemBytes
 //@ ensures[C14,C13] spills_only_when_memory_is_full: b.diskBuffer != nil && old(b.diskBuffer) == nil ==> len(old(written(b))) + len(p) > b.maxMemBytes
 
 //@ func (*server.Buffer).discardSpill
@@ -815,16 +815,16 @@ package server
 //@ attr blocks
 //@ assigns w.statusCode, w.headerWritten, w.bypass, Buffer.reader, @writerFrame
 //@ may_emit WriteHeader, SendBuffer, Copy, SendResponse
-//@ ensures[C14] first_status_wins: (old(w.headerWritten) ==> w.statusCode == old(w.statusCode) && w.bypass == old(w.bypass) && none(SendResponse)) && (!old(w.headerWritten) && !old(isEventStream(w)) ==> w.statusCode == statusCode && w.headerWritten && w.bypass == old(w.bypass) && none(SendResponse))
+//@ ensures[C14,C13,C15] first_status_wins: (old(w.headerWritten) ==> w.statusCode == old(w.statusCode) && w.bypass == old(w.bypass) && none(SendResponse)) && (!old(w.headerWritten) && !old(isEventStream(w)) ==> w.statusCode == statusCode && w.headerWritten && w.bypass == old(w.bypass) && none(SendResponse))
 //@ ensures[C14,C13] only_event_streams_bypass: !old(w.headerWritten) && old(isEventStream(w)) ==> count(SendResponse(_, _, _)) == 1 && emitted(SendResponse(_, true, statusCode))
 
 //@ func (*server.bufferedResponseWriter).Write
 //@ requires !isnil(w.ResponseWriter) && w.buffer != nil && bufInv(w.buffer) && w.buffer.memBytesWritten + w.buffer.diskBytesWritten + len(data) <= 4611686018427387904
 //@ assigns Buffer.memBytesWritten, Buffer.diskBytesWritten, Buffer.diskBuffer, Buffer.overflowed, w.buffer.memoryBuffer.contents, `os.File`.content, @writerFrame
 //@ may_emit Write, CreateTemp, FileWrite
-//@ ensures[C14] bypass_passes_through: old(w.bypass) ==> emitted(Write(old(w.ResponseWriter), result0))
+//@ ensures[C14,C13] bypass_passes_through: old(w.bypass) ==> emitted(Write(old(w.ResponseWriter), result0))
 //@ ensures[C14] size_error_swallowed: !old(w.bypass) && w.buffer.overflowed && !old(w.buffer.overflowed) ==> result0 == len(data) && err == nil
-//@ ensures[C14] buffered_otherwise: !old(w.bypass) ==> none(Write)
+//@ ensures[C14,C13] buffered_otherwise: !old(w.bypass) ==> none(Write)
 
 //@ func (*server.ResponseBufferMiddleware).ServeHTTP
 //@ requires r != nil && r.URL != nil && !isnil(w) && !isnil(h.next)
@@ -851,7 +851,7 @@ package server
 //@ requires !isnil(r.ResponseWriter) && 0 <= r.bytesWritten && r.bytesWritten <= 4611686018427387904
 //@ assigns r.bytesWritten, @writerFrame
 //@ may_emit Write
-//@ ensures[C19] counts_what_was_written: r.bytesWritten == old(r.bytesWritten) + result0 && emitted(Write(r.ResponseWriter, result0)) && count(Write(_, _)) == 1 && 0 <= result0 && result0 <= len(b)
+//@ ensures[C19,C13] counts_what_was_written: r.bytesWritten == old(r.bytesWritten) + result0 && emitted(Write(r.ResponseWriter, result0)) && count(Write(_, _)) == 1 && 0 <= result0 && result0 <= len(b)
 
 //@ func (*server.loggerResponseWriter).Hijack
 //@ requires !isnil(r.ResponseWriter)
@@ -876,7 +876,7 @@ package server
 //@ ensures[C19] exactly_one_record: count(Log(_, _, _)) == 1 && emitted(Log(old(h.logger), "Request", _))
 //@ on_panic ensures[C19] one_record_even_when_the_handler_aborts: count(Log(_, _, _)) == 1
 //@ ensures[C15,C19] an_aborted_response_is_not_finished_as_if_complete: none(CalleePanic) && none(Recovered)
-//@ ensures[C19] forwards_once_before_logging: count(Forward(_, _, _)) == 1 && first(Forward(_, _, _), Log(_, _, _))
+//@ ensures[C19,C13,C15] forwards_once_before_logging: count(Forward(_, _, _)) == 1 && first(Forward(_, _, _), Log(_, _, _))
 //@ ensures[C19] status_and_size_are_what_the_writer_recorded: emitted(AttrInt("status", writer.statusCode)) && emitted(AttrInt("resp_content_length", writer.bytesWritten))
 //@ ensures[C19] request_line_attributes: emitted(AttrStr("method", final(r).Method)) && emitted(AttrStr("host", final(r).Host)) && emitted(AttrStr("path", final(r).URL.Path)) && emitted(AttrStr("query", final(r).URL.RawQuery)) && emitted(AttrStr("request_id", hdrGet(final(r).Header, "X-Request-ID")))
 //@ ensures[C19] service_and_target_from_the_shared_context: emitted(AttrStr("service", loggingRequestContext.Service)) && emitted(AttrStr("target", loggingRequestContext.Target))
@@ -904,9 +904,9 @@ package server
 //@ may_emit SetXForwarded, SetHeader, SetURL
 //@ ensures[C13] original_host_kept: req.Out.Host == req.In.Host
 //@ ensures[C13] query_byte_identical: req.Out.URL.RawQuery == req.In.URL.RawQuery
-//@ ensures[C13] sent_to_this_target: req.Out.URL.Host == t.targetURL.Host && req.Out.URL.Scheme == t.targetURL.Scheme
-//@ ensures[C13] path_untouched_without_stripping: ctxtyp(req.In, ROUTEKEY) != typeid(*routingContext) ==> req.Out.URL.Path == req.In.URL.Path && req.Out.URL.RawPath == req.In.URL.RawPath
-//@ ensures[C13] matched_prefix_stripped: ctxtyp(req.In, ROUTEKEY) == typeid(*routingContext) ==> req.Out.URL.Path == strings.TrimPrefix(req.In.URL.Path, as(ctxval(req.In, ROUTEKEY), `*routingContext`).MatchedPrefix)
+//@ ensures[C13,C09,C10] sent_to_this_target: req.Out.URL.Host == t.targetURL.Host && req.Out.URL.Scheme == t.targetURL.Scheme
+//@ ensures[C13,C04] path_untouched_without_stripping: ctxtyp(req.In, ROUTEKEY) != typeid(*routingContext) ==> req.Out.URL.Path == req.In.URL.Path && req.Out.URL.RawPath == req.In.URL.RawPath
+//@ ensures[C13,C04] matched_prefix_stripped: ctxtyp(req.In, ROUTEKEY) == typeid(*routingContext) ==> req.Out.URL.Path == strings.TrimPrefix(req.In.URL.Path, as(ctxval(req.In, ROUTEKEY), `*routingContext`).MatchedPrefix)
 //@ ensures[C13] encoded_form_stripped_alike: ctxtyp(req.In, ROUTEKEY) == typeid(*routingContext) && req.In.URL.RawPath != "" && strings.HasPrefix(req.In.URL.RawPath, as(ctxval(req.In, ROUTEKEY), `*routingContext`).MatchedPrefix) && strings.HasPrefix(req.In.URL.Path, as(ctxval(req.In, ROUTEKEY), `*routingContext`).MatchedPrefix) ==> req.Out.URL.RawPath == strings.TrimPrefix(req.In.URL.RawPath, as(ctxval(req.In, ROUTEKEY), `*routingContext`).MatchedPrefix)
 //@ ensures[C13] inbound_request_untouched: req.In.URL.Path == old(req.In.URL.Path) && req.In.URL.RawQuery == old(req.In.URL.RawQuery) && req.In.Host == old(req.In.Host)
 
@@ -946,7 +946,7 @@ package server
 //@ requires forall i int :: 0 <= i && i < len(lb.all) ==> targetWF(lb.all[i]) && lb.all[i].becameHealthy != nil
 //@ assigns Target.state, everHealthy, lb.healthy
 //@ ensures[C11] restored_targets_presumed_healthy: lbReady(lb) && forall i int :: 0 <= i && i < len(lb.all) ==> lb.all[i].state == TargetStateHealthy
-//@ ensures[C11] all_in_rotation: len(lb.healthy) <= len(lb.all) && forall i int :: 0 <= i && i < len(lb.all) ==> (exists j int :: 0 <= j && j < len(lb.healthy) && lb.healthy[j] == lb.all[i])
+//@ ensures[C11,C09] all_in_rotation: len(lb.healthy) <= len(lb.all) && forall i int :: 0 <= i && i < len(lb.all) ==> (exists j int :: 0 <= j && j < len(lb.healthy) && lb.healthy[j] == lb.all[i])
 //@ loop 1 invariant marked_so_far: forall i int :: 0 <= i && i < idx ==> coll[i].state == TargetStateHealthy && everHealthy(coll[i])
 //@ loop 1 invariant same: coll == lb.all && idx <= len(coll)
 //@ loop 1 invariant wf: forall i int :: 0 <= i && i < len(coll) ==> coll[i] != nil
@@ -956,8 +956,8 @@ package server
 //@ requires s.active != nil && lbReady(s.active) && (s.rollout != nil ==> lbReady(s.rollout))
 //@ assigns nothing
 //@ may_emit JsonMarshal, MarshalService
-//@ ensures[C11] everything_observable_is_persisted: count(JsonMarshal(_)) == 1 && all(JsonMarshal, boxed($0, `marshalledService`).Name == s.name && boxed($0, `marshalledService`).Options == s.options && boxed($0, `marshalledService`).TargetOptions == s.targetOptions && boxed($0, `marshalledService`).PauseController == s.pauseController && boxed($0, `marshalledService`).RolloutController == s.rolloutController)
-//@ ensures[C11] rollout_targets_only_when_present: all(JsonMarshal, s.rollout == nil ==> isnil(boxed($0, `marshalledService`).RolloutTargets))
+//@ ensures[C11,C12,C07,C08,C10] everything_observable_is_persisted: count(JsonMarshal(_)) == 1 && all(JsonMarshal, boxed($0, `marshalledService`).Name == s.name && boxed($0, `marshalledService`).Options == s.options && boxed($0, `marshalledService`).TargetOptions == s.targetOptions && boxed($0, `marshalledService`).PauseController == s.pauseController && boxed($0, `marshalledService`).RolloutController == s.rolloutController)
+//@ ensures[C11,C12,C10] rollout_targets_only_when_present: all(JsonMarshal, s.rollout == nil ==> isnil(boxed($0, `marshalledService`).RolloutTargets))
 //@ emits MarshalService(s)
 
 //@ func (server.TargetList).Names
@@ -972,7 +972,7 @@ package server
 //@ requires zero_valued_receiver: s.active == nil && s.rollout == nil && s.pauseController == nil && s.rolloutController == nil
 //@ assigns *
 //@ may_emit *
-//@ ensures[C11] restored_fields: err == nil ==> s.name == ms.Name && s.pauseController == ms.PauseController && s.rolloutController == ms.RolloutController && s.options == ms.Options && s.targetOptions == ms.TargetOptions
+//@ ensures[C11,C12,C07,C08,C10] restored_fields: err == nil ==> s.name == ms.Name && s.pauseController == ms.PauseController && s.rolloutController == ms.RolloutController && s.options == ms.Options && s.targetOptions == ms.TargetOptions
 //@ ensures[C11] restored_service_can_serve: err == nil ==> s.active != nil && lbReady(s.active)
 //@ ensures[C11] active_targets_presumed_healthy: err == nil ==> s.active != nil && fresh(s.active) && lbReady(s.active) && len(s.active.all) == len(ms.ActiveTargets)
 //@ ensures[C10,C11] rollout_slot_only_with_rollout_targets: err == nil ==> (len(ms.RolloutTargets) == 0 ==> s.rollout == nil) && (len(ms.RolloutTargets) > 0 ==> s.rollout != nil && lbReady(s.rollout) && len(s.rollout.all) == len(ms.RolloutTargets))
@@ -1018,7 +1018,7 @@ package server
 //@ requires m.services != nil && (forall n string :: haskey(m.services, n) ==> m.services[n] != nil && m.services[n].name == n)
 //@ assigns mapof(m.services), m.requestServiceMap, Service.options
 //@ may_emit RebuildTable, SyncTLS, HostLookup
-//@ ensures[C05] all_pairs_released: !haskey(m.services, name) && forall n string :: n != name ==> haskey(m.services, n) == old(haskey(m.services, n)) && m.services[n] == old(m.services[n])
+//@ ensures[C05,C04,C06] all_pairs_released: !haskey(m.services, name) && forall n string :: n != name ==> haskey(m.services, n) == old(haskey(m.services, n)) && m.services[n] == old(m.services[n])
 //@ ensures[C04,C05] table_follows: repInv(m)
 //@ emits RemoveService(m, name)
 
@@ -1053,7 +1053,7 @@ package server
 //@ attr blocks
 //@ assigns *
 //@ may_emit *
-//@ ensures[C06] unknown_service_rejected: none(DeployTargets) ==> err == ErrorServiceNotFound
+//@ ensures[C06,C20] unknown_service_rejected: none(DeployTargets) ==> err == ErrorServiceNotFound
 //@ ensures[C17,C01,C03] timeouts_passed_in_position: all(DeployTargets, $3 == deployTimeout && $4 == drainTimeout && $2 == TargetSlotRollout) && count(DeployTargets(_, _, _, _, _, _)) <= 1
 //@ ensures[C17] bounded_by_deploy_plus_drain_timeout: now <= old(now) + max(deployTimeout, 0) + max(drainTimeout, 0)
 //@ ensures[C01,C06] outcome_of_the_deploy_is_reported: all(DeployTargets, $5 == (err == nil))
@@ -1086,9 +1086,9 @@ package server
 //@ attr blocks
 //@ assigns *
 //@ may_emit *
-//@ ensures[C06] unknown_service_rejected: none(PauseSvc) ==> err == ErrorServiceNotFound
+//@ ensures[C06,C20] unknown_service_rejected: none(PauseSvc) ==> err == ErrorServiceNotFound
 //@ ensures[C17,C07,C03] timeouts_passed_in_position: all(PauseSvc, $1 == drainTimeout && $2 == pauseTimeout)
-//@ ensures[C17] bounded_by_drain_timeout: now <= old(now) + max(drainTimeout, 0)
+//@ ensures[C17,C03,C07] bounded_by_drain_timeout: now <= old(now) + max(drainTimeout, 0)
 //@ ensures[C12,C11,C03,C05,C06,C07,C08,C10] snapshot_taken: last_is(Snapshot(r))
 
 //@ func (*server.Router).StopService
@@ -1097,9 +1097,9 @@ package server
 //@ attr blocks
 //@ assigns *
 //@ may_emit *
-//@ ensures[C06] unknown_service_rejected: none(StopSvc) ==> err == ErrorServiceNotFound
+//@ ensures[C06,C20] unknown_service_rejected: none(StopSvc) ==> err == ErrorServiceNotFound
 //@ ensures[C17,C08,C03] arguments_passed_in_position: all(StopSvc, $1 == drainTimeout && $2 == message)
-//@ ensures[C17] bounded_by_drain_timeout: now <= old(now) + max(drainTimeout, 0)
+//@ ensures[C17,C03,C08] bounded_by_drain_timeout: now <= old(now) + max(drainTimeout, 0)
 //@ ensures[C12,C11,C03,C05,C06,C07,C08,C10] snapshot_taken: last_is(Snapshot(r))
 
 //@ func (*server.Router).ResumeService
@@ -1108,7 +1108,7 @@ package server
 //@ attr blocks
 //@ assigns *
 //@ may_emit *
-//@ ensures[C06] unknown_service_rejected: none(ResumeSvc) ==> err == ErrorServiceNotFound
+//@ ensures[C06,C20] unknown_service_rejected: none(ResumeSvc) ==> err == ErrorServiceNotFound
 //@ ensures[C17] returns_without_waiting: now == old(now)
 //@ ensures[C12,C11,C03,C05,C06,C07,C08,C10] snapshot_taken: last_is(Snapshot(r))
 
@@ -1119,7 +1119,7 @@ package server
 //@ assigns *
 //@ may_emit *
 //@ ensures[C05,C17] probes_stopped_then_pairs_released: err == nil ==> first(DisposeService(_), RemoveService(_, name)) && count(RemoveService(_, _)) == 1
-//@ ensures[C06] unknown_service_rejected: err != nil ==> err == ErrorServiceNotFound && none(RemoveService) && none(DisposeService)
+//@ ensures[C06,C20] unknown_service_rejected: err != nil ==> err == ErrorServiceNotFound && none(RemoveService) && none(DisposeService)
 //@ ensures[C17] returns_without_waiting: now == old(now)
 //@ ensures[C12,C11,C03,C05,C06,C07,C08,C10] snapshot_taken: last_is(Snapshot(r))
 //@ ensures[C18] lock_free: !held(r.serviceLock)
@@ -1163,9 +1163,9 @@ package server
 //@ attr blocks
 //@ assigns *
 //@ may_emit *
-//@ ensures[C04] one_outcome_service_or_404: count(ServiceServe(_, _, _, _, _)) + count(ErrResp(_, _, _)) == 1 && all(ErrResp, $1 == 404) && count(Routed(_, _, _, _)) == 1
-//@ ensures[C04] no_service_is_404: emitted(Routed(_, _, nil, _)) <==> emitted(ErrResp(w, 404, _))
-//@ ensures[C04] served_by_the_service_the_table_chose: all(ServiceServe, emitted(Routed(_, req, $0, _))) && (emitted(ServiceServe(_, _, _, _, _)) ==> emitted(ServiceServe(_, w, _, _, _)))
+//@ ensures[C04,C02,C05] one_outcome_service_or_404: count(ServiceServe(_, _, _, _, _)) + count(ErrResp(_, _, _)) == 1 && all(ErrResp, $1 == 404) && count(Routed(_, _, _, _)) == 1
+//@ ensures[C04,C02] no_service_is_404: emitted(Routed(_, _, nil, _)) <==> emitted(ErrResp(w, 404, _))
+//@ ensures[C04,C02,C05,C10] served_by_the_service_the_table_chose: all(ServiceServe, emitted(Routed(_, req, $0, _))) && (emitted(ServiceServe(_, _, _, _, _)) ==> emitted(ServiceServe(_, w, _, _, _)))
 //@ ensures[C13,C16,C19] request_line_reaches_the_service_untouched: all(ServiceServe, $3 == old(req.URL.Path) && $4 == old(req.Host))
 //@ ensures[C13] same_request_unless_stripping: all(ServiceServe, forall p string :: emitted(Routed(_, _, _, p)) && !(old(as($0, `*Service`).options.StripPrefix) && p != "/") ==> $2 == ref(req))
 //@ ensures[C13] matched_prefix_travels_with_the_request_when_stripping: all(ServiceServe, forall p string :: emitted(Routed(_, _, _, p)) && old(as($0, `*Service`).options.StripPrefix) && p != "/" ==> ctxtyp(as($2, `*net/http.Request`), ROUTEKEY) == typeid(*routingContext) && as(ctxval(as($2, `*net/http.Request`), ROUTEKEY), `*routingContext`).MatchedPrefix == p && as($2, `*net/http.Request`).URL == req.URL && as($2, `*net/http.Request`).Method == req.Method)
@@ -1176,7 +1176,7 @@ package server
 //@ assigns *
 //@ may_emit *
 //@ ensures[C20,C17] arguments_reach_the_router_in_position: count(CmdDeploy(_, _, _, _, _)) == 1 && emitted(CmdDeploy(old(h.router), args.Service, args.DeployTimeout, args.DrainTimeout, _))
-//@ ensures[C20] error_is_reported_to_the_client: emitted(CmdDeploy(_, _, _, _, result == nil))
+//@ ensures[C20,C06] error_is_reported_to_the_client: emitted(CmdDeploy(_, _, _, _, result == nil))
 
 //@ func (*server.CommandHandler).RolloutDeploy
 //@ requires h.router != nil && h.router.services != nil
@@ -1184,7 +1184,7 @@ package server
 //@ assigns *
 //@ may_emit *
 //@ ensures[C20,C17] arguments_reach_the_router_in_position: count(CmdRolloutDeploy(_, _, _, _, _)) == 1 && emitted(CmdRolloutDeploy(old(h.router), args.Service, args.DeployTimeout, args.DrainTimeout, _))
-//@ ensures[C20] error_is_reported_to_the_client: emitted(CmdRolloutDeploy(_, _, _, _, result == nil))
+//@ ensures[C20,C06] error_is_reported_to_the_client: emitted(CmdRolloutDeploy(_, _, _, _, result == nil))
 
 //@ func (*server.CommandHandler).RolloutSet
 //@ requires h.router != nil && h.router.services != nil
@@ -1192,7 +1192,7 @@ package server
 //@ assigns *
 //@ may_emit *
 //@ ensures[C20,C17] arguments_reach_the_router_in_position: count(CmdRolloutSet(_, _, _, _)) == 1 && emitted(CmdRolloutSet(old(h.router), args.Service, args.Percentage, _))
-//@ ensures[C20] error_is_reported_to_the_client: emitted(CmdRolloutSet(_, _, _, result == nil))
+//@ ensures[C20,C06] error_is_reported_to_the_client: emitted(CmdRolloutSet(_, _, _, result == nil))
 
 //@ func (*server.CommandHandler).RolloutStop
 //@ requires h.router != nil && h.router.services != nil
@@ -1200,7 +1200,7 @@ package server
 //@ assigns *
 //@ may_emit *
 //@ ensures[C20,C17] arguments_reach_the_router_in_position: count(CmdRolloutStop(_, _, _)) == 1 && emitted(CmdRolloutStop(old(h.router), args.Service, _))
-//@ ensures[C20] error_is_reported_to_the_client: emitted(CmdRolloutStop(_, _, result == nil))
+//@ ensures[C20,C06] error_is_reported_to_the_client: emitted(CmdRolloutStop(_, _, result == nil))
 
 //@ func (*server.CommandHandler).Pause
 //@ requires h.router != nil && h.router.services != nil
@@ -1208,7 +1208,7 @@ package server
 //@ assigns *
 //@ may_emit *
 //@ ensures[C20,C17] arguments_reach_the_router_in_position: count(CmdPause(_, _, _, _, _)) == 1 && emitted(CmdPause(old(h.router), args.Service, args.DrainTimeout, args.PauseTimeout, _))
-//@ ensures[C20] error_is_reported_to_the_client: emitted(CmdPause(_, _, _, _, result == nil))
+//@ ensures[C20,C06] error_is_reported_to_the_client: emitted(CmdPause(_, _, _, _, result == nil))
 
 //@ func (*server.CommandHandler).Stop
 //@ requires h.router != nil && h.router.services != nil
@@ -1216,7 +1216,7 @@ package server
 //@ assigns *
 //@ may_emit *
 //@ ensures[C20,C17] arguments_reach_the_router_in_position: count(CmdStop(_, _, _, _, _)) == 1 && emitted(CmdStop(old(h.router), args.Service, args.DrainTimeout, args.Message, _))
-//@ ensures[C20] error_is_reported_to_the_client: emitted(CmdStop(_, _, _, _, result == nil))
+//@ ensures[C20,C06] error_is_reported_to_the_client: emitted(CmdStop(_, _, _, _, result == nil))
 
 //@ func (*server.CommandHandler).Resume
 //@ requires h.router != nil && h.router.services != nil
@@ -1224,7 +1224,7 @@ package server
 //@ assigns *
 //@ may_emit *
 //@ ensures[C20,C17] arguments_reach_the_router_in_position: count(CmdResume(_, _, _)) == 1 && emitted(CmdResume(old(h.router), args.Service, _))
-//@ ensures[C20] error_is_reported_to_the_client: emitted(CmdResume(_, _, result == nil))
+//@ ensures[C20,C06] error_is_reported_to_the_client: emitted(CmdResume(_, _, result == nil))
 
 //@ func (*server.CommandHandler).Remove
 //@ requires h.router != nil && h.router.services != nil
@@ -1232,7 +1232,7 @@ package server
 //@ assigns *
 //@ may_emit *
 //@ ensures[C20,C17] arguments_reach_the_router_in_position: count(CmdRemove(_, _, _)) == 1 && emitted(CmdRemove(old(h.router), args.Service, _))
-//@ ensures[C20] error_is_reported_to_the_client: emitted(CmdRemove(_, _, result == nil))
+//@ ensures[C20,C06] error_is_reported_to_the_client: emitted(CmdRemove(_, _, result == nil))
 
 //@ func (*server.targetResponseWriter).Flush
 //@ requires r.inflightRequest != nil
@@ -1262,8 +1262,8 @@ package server
 //@ may_emit FsOpen, FileClose, FileClosed, JsonDecode, NewServiceMap, SetService, RebuildTable, SyncTLS, HostLookup, JsonUnmarshal
 //@ ensures[C11,C12] unreadable_or_corrupt_state_changes_nothing: result != nil ==> none(NewServiceMap) && none(SetService) && none(Lock(r, lockid("server.Router.serviceLock")))
 //@ ensures[C11] a_missing_file_is_not_an_error: none(JsonDecode) && none(FileClose) ==> none(NewServiceMap) && none(SetService)
-//@ ensures[C11] every_saved_service_is_installed_into_a_fresh_table: result == nil && emitted(JsonDecode(_)) ==> count(NewServiceMap(_)) == 1 && first(NewServiceMap(_), SetService(_, _)) && first(Lock(r, lockid("server.Router.serviceLock")), NewServiceMap(_))
-//@ ensures[C11] reads_the_configured_state_file: all(FsOpen, $0 == r.statePath) && count(FsOpen(_)) == 1
+//@ ensures[C11,C12,C04,C05] every_saved_service_is_installed_into_a_fresh_table: result == nil && emitted(JsonDecode(_)) ==> count(NewServiceMap(_)) == 1 && first(NewServiceMap(_), SetService(_, _)) && first(Lock(r, lockid("server.Router.serviceLock")), NewServiceMap(_))
+//@ ensures[C11,C12] reads_the_configured_state_file: all(FsOpen, $0 == r.statePath) && count(FsOpen(_)) == 1
 //@ ensures[C18] lock_free: !held(r.serviceLock)
 
 //@ func (*server.Router).RestoreLastSavedState$1
